@@ -264,13 +264,23 @@ impl LazyFormatContext {
     ///
     /// A mutex guard containing a reference to the global format context.
     pub fn get(&self) -> std::sync::MutexGuard<'_, Option<FormatContext>> {
+        #[cfg(feature = "verif_hooks")]
+        crate::verif_hooks::point("format_context.get.enter");
         self.init.call_once(|| {
+            #[cfg(feature = "verif_hooks")]
+            crate::verif_hooks::point("format_context.init.begin");
             bc_components::register_tags();
+            #[cfg(feature = "verif_hooks")]
+            crate::verif_hooks::point("format_context.init.after_register_tags");
             let tags_binding = dcbor::GLOBAL_TAGS.get();
             let tags = tags_binding.as_ref().unwrap();
+            #[cfg(feature = "verif_hooks")]
+            crate::verif_hooks::point("format_context.init.have_tags");
 
             #[cfg(feature = "known_value")]
             let known_values_binding = KNOWN_VALUES.get();
+            #[cfg(feature = "verif_hooks")]
+            crate::verif_hooks::point("format_context.init.have_known_values");
             #[cfg(feature = "known_value")]
             let known_values = known_values_binding.as_ref().unwrap();
 
@@ -278,6 +288,8 @@ impl LazyFormatContext {
             let functions_binding = GLOBAL_FUNCTIONS.get();
             #[cfg(feature = "expression")]
             let functions = functions_binding.as_ref().unwrap();
+            #[cfg(feature = "verif_hooks")]
+            crate::verif_hooks::point("format_context.init.have_functions");
             #[cfg(feature = "expression")]
             let parameters_binding = GLOBAL_PARAMETERS.get();
             #[cfg(feature = "expression")]
@@ -291,7 +303,11 @@ impl LazyFormatContext {
                 #[cfg(feature = "expression")] Some(parameters)
             );
             *self.data.lock().unwrap() = Some(context);
+            #[cfg(feature = "verif_hooks")]
+            crate::verif_hooks::point("format_context.init.end");
         });
+        #[cfg(feature = "verif_hooks")]
+        crate::verif_hooks::point("format_context.get.before_lock");
         self.data.lock().unwrap()
     }
 }
